@@ -294,7 +294,8 @@ func genC19(r *Rand, n int, thorough bool, emit func(string)) {
 	}
 }
 
-var xBases = []string{"foo.", "bar_", "shot_v", "a", "img.v2.", "take-", "x.y.", "comp", ".hid.", "beauty.", "B", "foo_"}
+var xBases = []string{"foo.", "bar_", "shot_v", "a", "img.v2.", "take-", "x.y.", "comp", ".hid.", "beauty.", "B", "foo_",
+	"a#b.", "x,1.", "y1-5.", "p@q_", "v%04d."}
 var xExts = []string{".exr", ".tar.gz", ".jpg", "", ".tif", ".e", ".1a"}
 var xPlain = []string{"readme", "notes.txt", ".hidden", ".cfg.ini", "Makefile", "a.b.c", "data.json", "LICENSE", ".x", "thumb.db"}
 
